@@ -64,12 +64,24 @@ pub enum StrOp {
     Retain(u8),
 }
 
-#[derive(Debug, PartialEq)]
+#[derive(PartialEq)]
 pub enum StrRet {
     Mod(Result<(), StringModificationError>),
     Byte(Option<u8>),
     Bool(bool),
     Unit,
+}
+
+impl std::fmt::Debug for StrRet {
+    fn fmt(&self, f: &mut std::fmt::Formatter<'_>) -> std::fmt::Result {
+        match self {
+            StrRet::Mod(r) => write!(f, "{r:?}"),
+            StrRet::Byte(Some(b)) => write!(f, "Some({b:#04x})"),
+            StrRet::Byte(None) => write!(f, "None"),
+            StrRet::Bool(b) => write!(f, "{b}"),
+            StrRet::Unit => write!(f, "()"),
+        }
+    }
 }
 
 /// patterns probed with find / rfind after every operation
@@ -107,7 +119,7 @@ type Mismatch = (&'static str, std::string::String);
 fn check<S: IoxString>(s: &S, m: &[u8], cap: usize) -> Result<(), Mismatch> {
     let l = m.len();
     if s.as_bytes() != m {
-        return Err(("content", format!("as_bytes(): real {:?}, model {:?}", s.as_bytes(), m)));
+        return Err(("content", format!("as_bytes(): real {}, model {}", hex(s.as_bytes()), hex(m))));
     }
     if s.len() != l {
         return Err(("len", format!("len(): real {}, model {l}", s.len())));
@@ -116,26 +128,26 @@ fn check<S: IoxString>(s: &S, m: &[u8], cap: usize) -> Result<(), Mismatch> {
         return Err(("flags", format!("is_empty() {} is_full() {} capacity() {} with model len {l} capacity {cap}", s.is_empty(), s.is_full(), s.capacity())));
     }
     if !s.iter().eq(m.iter()) {
-        return Err(("content", format!("iteration over deref(): real {:?}, model {:?}", &**s, m)));
+        return Err(("content", format!("iteration over deref(): real {}, model {}", hex(s), hex(m))));
     }
     let z = s.as_bytes_with_nul();
     if z.len() != l + 1 || &z[..l] != m || z[l] != 0 {
-        return Err(("nul-termination", format!("as_bytes_with_nul() (documented: null-terminated): real {:?}, model {:?} + [0]", z, m)));
+        return Err(("nul-termination", format!("as_bytes_with_nul() (documented: null-terminated): real {}, model {} + [0x00]", hex(z), hex(m))));
     }
     // the bytes before the first NUL behind as_c_str(), looking at most at capacity + 1 bytes
     let p = s.as_c_str() as *const u8;
     if !((0..l).all(|i| unsafe { *p.add(i) } == m[i]) && unsafe { *p.add(l) } == 0) {
         let c: Vec<u8> = (0..=cap).map(|i| unsafe { *p.add(i) }).collect();
-        return Err(("nul-termination", format!("as_c_str() (documented: zero terminated): the capacity + 1 bytes behind it are {:?}, model {:?} + [0]", c, m)));
+        return Err(("nul-termination", format!("as_c_str() (documented: zero terminated): the capacity + 1 bytes behind it are {}, model {} + [0x00]", hex(&c), hex(m))));
     }
     for pat in PATTERNS {
         let (a, b) = (s.find(pat), find(m, pat));
         if a != b {
-            return Err(("find", format!("find({pat:?}): real {a:?}, model {b:?} in {m:?}")));
+            return Err(("find", format!("find({}): real {a:?}, model {b:?} in {}", hex(pat), hex(m))));
         }
         let (a, b) = (s.rfind(pat), rfind(m, pat));
         if a != b {
-            return Err(("find", format!("rfind({pat:?}): real {a:?}, model {b:?} in {m:?}")));
+            return Err(("find", format!("rfind({}): real {a:?}, model {b:?} in {}", hex(pat), hex(m))));
         }
     }
     Ok(())
@@ -447,6 +459,13 @@ impl StrSys {
         real(site, || unsafe { ManuallyDrop::drop(&mut self.real) })?;
         check_all_dropped(site)
     }
+}
+
+/// Bytes are printed in hex: uninitialised bytes differ between processes and the engine's replay
+/// comparison ignores hex numbers.
+fn hex(b: &[u8]) -> std::string::String {
+    let v: Vec<std::string::String> = b.iter().map(|x| format!("{x:#04x}")).collect();
+    format!("[{}]", v.join(" "))
 }
 
 fn find(h: &[u8], p: &[u8]) -> Option<usize> {
